@@ -150,6 +150,9 @@ template <unsigned short N> static typename tfm::KrigingVariable<N, double>::typ
   else { tfm::tvector<N, double> v; for (unsigned short k = 0; k < N; ++k) v(k) = p[size_t(o + k)]; return v; }
 }
 static std::vector<double> column(const std::vector<Pt>& p, int k) { std::vector<double> c; for (auto& q : p) c.push_back(q[size_t(k)]); return c; }
+// the same column as a tfel::math::vector: every wrapper class has a second constructor overload taking those
+static tfm::vector<double> tcolumn(const std::vector<Pt>& p, int k) { tfm::vector<double> c; for (auto& q : p) c.push_back(q[size_t(k)]); return c; }
+static tfm::vector<double> tvalues(const std::vector<double>& y) { tfm::vector<double> c; for (auto v : y) c.push_back(v); return c; }
 
 template <unsigned short N>
 static Subject plain() {
@@ -214,6 +217,24 @@ static std::vector<Subject> subjects() {
                  return std::function<double(const Pt&)>([k](const Pt& q) { return (*k)(q[0], q[1], q[2]); }); }});
   S.push_back({"FactorizedKriging1D3D", Spec{1, 3, C_ABS_1D, C_NORM_3D, {1, 2, 3}, true}, [](const std::vector<Pt>& p, const std::vector<double>& y) {
                  auto k = std::make_shared<tfm::FactorizedKriging1D3D>(column(p, 0), column(p, 1), column(p, 2), column(p, 3), y);
+                 return std::function<double(const Pt&)>([k](const Pt& q) { return (*k)(q[0], q[1], q[2], q[3]); }); }});
+  S.push_back({"Kriging1D(tfel::math::vector)", Spec{1, 0, C_CUBE_1D, C_ABS_1D, {0}, true}, [](const std::vector<Pt>& p, const std::vector<double>& y) {
+                 auto k = std::make_shared<tfm::Kriging1D>(tcolumn(p, 0), tvalues(y));
+                 return std::function<double(const Pt&)>([k](const Pt& q) { return (*k)(q[0]); }); }});
+  S.push_back({"Kriging2D(tfel::math::vector)", Spec{2, 0, C_THINPLATE_2D, C_ABS_1D, {0, 1}, true}, [](const std::vector<Pt>& p, const std::vector<double>& y) {
+                 auto k = std::make_shared<tfm::Kriging2D>(tcolumn(p, 0), tcolumn(p, 1), tvalues(y));
+                 return std::function<double(const Pt&)>([k](const Pt& q) { return (*k)(q[0], q[1]); }); }});
+  S.push_back({"Kriging3D(tfel::math::vector)", Spec{3, 0, C_NORM_3D, C_ABS_1D, {0, 1, 2}, true}, [](const std::vector<Pt>& p, const std::vector<double>& y) {
+                 auto k = std::make_shared<tfm::Kriging3D>(tcolumn(p, 0), tcolumn(p, 1), tcolumn(p, 2), tvalues(y));
+                 return std::function<double(const Pt&)>([k](const Pt& q) { return (*k)(q[0], q[1], q[2]); }); }});
+  S.push_back({"FactorizedKriging1D1D(tfel::math::vector)", Spec{1, 1, C_ABS_1D, C_CUBE_1D, {1}, true}, [](const std::vector<Pt>& p, const std::vector<double>& y) {
+                 auto k = std::make_shared<tfm::FactorizedKriging1D1D>(tcolumn(p, 0), tcolumn(p, 1), tvalues(y));
+                 return std::function<double(const Pt&)>([k](const Pt& q) { return (*k)(q[0], q[1]); }); }});
+  S.push_back({"FactorizedKriging1D2D(tfel::math::vector)", Spec{1, 2, C_ABS_1D, C_THINPLATE_2D, {1, 2}, true}, [](const std::vector<Pt>& p, const std::vector<double>& y) {
+                 auto k = std::make_shared<tfm::FactorizedKriging1D2D>(tcolumn(p, 0), tcolumn(p, 1), tcolumn(p, 2), tvalues(y));
+                 return std::function<double(const Pt&)>([k](const Pt& q) { return (*k)(q[0], q[1], q[2]); }); }});
+  S.push_back({"FactorizedKriging1D3D(tfel::math::vector)", Spec{1, 3, C_ABS_1D, C_NORM_3D, {1, 2, 3}, true}, [](const std::vector<Pt>& p, const std::vector<double>& y) {
+                 auto k = std::make_shared<tfm::FactorizedKriging1D3D>(tcolumn(p, 0), tcolumn(p, 1), tcolumn(p, 2), tcolumn(p, 3), tvalues(y));
                  return std::function<double(const Pt&)>([k](const Pt& q) { return (*k)(q[0], q[1], q[2], q[3]); }); }});
   S.push_back(kriged_function<1>()); S.push_back(kriged_function<2>()); S.push_back(kriged_function<3>());
   return S;
